@@ -457,10 +457,17 @@ def run_property(pid, tier, seed, replay_file=None):
 
     spec_fail, corr_fail, ood, evalerr = classify()
 
+    # a failing case is a LISTED finding only if it falls in a class of KNOWN_FINDINGS *and* the
+    # implementation did there exactly what the model of the unchanged code does (correspondence
+    # holds): the same class failing in a different way is a new violation
+    def listed(i):
+        v = verd_all[i]
+        return (v >> 3) in known and (v >> 3) != 0 and bool(v & 2)
+
     # when the tie (proof or correspondence) is broken but no failing input is in hand: search
     searched = 0
     if not replay_file and (corr_fail or proofs['discharged'] < proofs['obligations']) and \
-            not any((verd_all[i] >> 3) == 0 for i in spec_fail):
+            not any(not listed(i) for i in spec_fail):
         for r in range(cfg.get('search_rounds', 2)):
             n = cfg['n_quick']
             cases = run_harness(cfg, 'gen', os.path.join(d, 'search%d.jsonl' % r), seed=seed * 1000 + 17 * (r + 1),
@@ -468,7 +475,7 @@ def run_property(pid, tier, seed, replay_file=None):
             batch(cases, 'search%d' % r)
             searched += len(cases)
             spec_fail, corr_fail, ood, evalerr = classify()
-            if any((verd_all[i] >> 3) == 0 for i in spec_fail):
+            if any(not listed(i) for i in spec_fail):
                 break
 
     # ---- real-kernel referee of the simulated kernel (skipped, never failed, where unavailable)
@@ -507,7 +514,7 @@ def run_property(pid, tier, seed, replay_file=None):
     for i in spec_fail:
         v = verd_all[i]
         kfid = v >> 3
-        if kfid and kfid in known:
+        if listed(i):
             known_seen.setdefault(kfid, 0)
             known_seen[kfid] += 1
             continue
